@@ -751,9 +751,12 @@ where
         }
     }
 
-    let mut outer = Outer::default();
-    let mut tokens: VecDeque<_> = Some(tree.as_token()).into_iter().collect();
-    while let Some(token) = tokens.pop_front() {
+    // The neighboring tokens of a branch are inherited by the branches nested within it, so they
+    // are queued together with the tokens of the branch (rather than shared by the traversal).
+    let mut tokens: VecDeque<_> = Some((tree.as_token(), Outer::default()))
+        .into_iter()
+        .collect();
+    while let Some((token, inherited)) = tokens.pop_front() {
         use BranchKind::{Alternation, Repetition};
 
         for (left, token, right) in token
@@ -764,7 +767,7 @@ where
         {
             match token.as_branch() {
                 Some(Alternation(ref alternation)) => {
-                    outer = outer.or(left, right);
+                    let outer = inherited.or(left, right);
                     let diagnose = diagnose(tree.expression(), token, "in this alternation");
                     for token in alternation.tokens() {
                         let concatenation = token.concatenation();
@@ -773,10 +776,10 @@ where
                             check_alternation(terminals, outer).map_err(diagnose)?;
                         }
                     }
-                    tokens.extend(alternation.tokens());
+                    tokens.extend(alternation.tokens().iter().map(|token| (token, outer)));
                 },
                 Some(Repetition(ref repetition)) => {
-                    outer = outer.or(left, right);
+                    let outer = inherited.or(left, right);
                     let diagnose = diagnose(tree.expression(), token, "in this repetition");
                     let token = repetition.token();
                     let concatenation = token.concatenation();
@@ -785,7 +788,7 @@ where
                         check_repetition(terminals, outer, repetition.variance())
                             .map_err(diagnose)?;
                     }
-                    tokens.push_back(token);
+                    tokens.push_back((token, outer));
                 },
                 _ => {},
             }
